@@ -484,6 +484,14 @@ def make_molecule(rng, arch=None, small=False, typable=False, form=None, familie
             m = ARCHETYPES[arch](ctx, families, mean_units)
             m.arch = arch
             if rng.random() < 0.12:
+                # scalar weights written on terminal descriptors (the left one is handed to the prefix' descriptor)
+                for e in m.elements:
+                    if isinstance(e, StochAst):
+                        if e.left.sym and e.left.weight is None and rng.random() < 0.6:
+                            e.left.weight = rng.choice([2.0, 0.5, 3.0, 0.0])
+                        if e.right.sym and rng.random() < 0.4:
+                            e.right.weight = rng.choice([2.0, 0.25, 7.0])
+            if rng.random() < 0.12:
                 scale_weights(m, rng.choice([1e-9, 1e-9, 1e6, 3e-10]))
             return m
         except ValueError:
